@@ -1095,6 +1095,35 @@ func (m *marsh) copyBack(a value, nv reflect.Value) {
 			m.in.noteWrite(x, nw)
 			*x = nw
 		}
+	case *omap:
+		// a map argument or receiver (url.Values.Set, ...): entries the callee added, changed or
+		// removed are written back, in sorted key order
+		if x == nil || nv.Kind() != reflect.Map || nv.IsNil() {
+			return
+		}
+		m2 := m.in.newMarsh()
+		keys := nv.MapKeys()
+		sort.Slice(keys, func(i, j int) bool { return fmt.Sprint(keys[i].Interface()) < fmt.Sprint(keys[j].Interface()) })
+		seen := map[string]bool{}
+		for _, k := range keys {
+			kv := m2.fromNative(k, nil)
+			ck, ok := ckey(kv)
+			if !ok {
+				return
+			}
+			seen[ck] = true
+			nw := m2.fromNative(nv.MapIndex(k), nil)
+			if e := m.in.mapFind(x, kv); e == nil || !sameShallow(e.v, nw) {
+				m.in.noteMapWrite(x)
+				m.in.mapInsert(x, kv, nw)
+			}
+		}
+		for _, e := range x.ents {
+			if !e.deleted && e.hasCk && !seen[e.ck] {
+				m.in.noteMapWrite(x)
+				m.in.mapDelete(x, e.k)
+			}
+		}
 	case []value:
 		if nv.Kind() != reflect.Slice || nv.Len() != len(x) {
 			return
